@@ -221,16 +221,18 @@ class PlotAllData:
             new_res = [str(i) for i in amp.decay_group]
         else:
             weights = []
-            used_res = amp.used_res
+            used_chains = list(amp.decay_group.chains_idx)
             new_res = []
-            for i in res:
-                if not isinstance(i, list):
-                    i = [i]
-                new_res.append(tuple(i))
-                amp.set_used_res(i)
-                weights.append(amp(phsp))
-            # print(weights, amp.decay_group.chains_idx)
-            amp.set_used_res(used_res)
+            try:
+                for i in res:
+                    if not isinstance(i, list):
+                        i = [i]
+                    new_res.append(tuple(i))
+                    amp.set_used_res(i)
+                    weights.append(amp(phsp))
+            finally:
+                # back to the selection that was active before, whatever happened
+                amp.set_used_chains(used_chains)
         self.datasets["fitted"].partial_weight = dict(zip(new_res, weights))
 
         if self.bg is None:
